@@ -53,7 +53,7 @@ Record wf (s : st) : Prop := mkwf {
   wf_b_clean : forall v, b_c s = NoHist -> b_d s = Some v -> v = db_b s;
   wf_c_comm : forall l, c_c s = CVal l -> same_set l (db_c s);
   wf_c_clean : forall l, c_c s = NoHist -> c_d s = Some l -> same_set l (db_c s);
-  wf_c_kind : c_c s <> CNoValue /\ c_c s <> CNoResult;
+  wf_c_kind : c_c s <> CNoResult /\ (c_c s = CNoValue -> db_c s = []);
   wf_bid : bid_d s = false -> bid_e s = false -> db_b s = 0;
   wf_b_nv : b_c s = CNoValue -> db_b s = 0;
   wf_new : persistent s = false -> db_x s = 0 /\ db_b s = 0 /\ db_c s = [] /\ bid_d s = false /\ bid_e s = false;
